@@ -889,6 +889,89 @@ def chain_cases(rng, all_pairs, ntriples, hist_per_chain, maxev=14):
     return cases
 
 
+# ---------------------------------------------------------------- late hand-over (mode hand)
+HAND_STAGE0 = [k + ":" + f for k in ("head", "tail", "skip") for f in ("static:2", "dyninit:2", "dynamic:-")]
+HAND_STAGE1 = ["filter:-:255", "filter:-:170", "head:static:5", "skip:dynamic:-", "tail:dyninit:3"]
+
+
+def hand_exhaustive(quick=True):
+    """stage 0 used for a while, then handed over by itself: every applicable source diff on [1,2,3] x
+    how far stage 0 is polled afterwards (not at all / one poll - a second diff of the burst may stay
+    parked / drained) x an optional limit change, again followed by nothing / one poll / a drain; then
+    the hand-over, a drain, one more source update and a drain"""
+    src = [1, 2, 3]
+    ds = [d for d in diffs_for(len(src), newvals=(7,), appends=((7, 8),), slack=0, resets=((5, 6, 7, 9),)) if ok_in(d, len(src))]
+    polls = ("", "p", "D")
+    cases = []
+    st1s = HAND_STAGE1[:3] if quick else HAND_STAGE1
+    for bat in "ub":
+        for s0 in HAND_STAGE0:
+            dyn = s0.split(":")[1] != "static"
+            lims = [None] + ([0, 1, 3] if dyn else [])
+            for s1 in st1s:
+                for d in ds:
+                    for p1 in polls:
+                        for lim in lims:
+                            for p2 in (polls if lim is not None else ("",)):
+                                for first in ([["l0:2"], []] if s0.endswith("dynamic:-") else [[]]):
+                                    evs = list(first) + ["d:" + d] + ([p1] if p1 else [])
+                                    if lim is not None:
+                                        evs += ["l0:%d" % lim] + ([p2] if p2 else [])
+                                    n = len_after(d, len(src))
+                                    evs += ["H", "D", "d:PushBack(4)", "D"]
+                                    if n > 0:
+                                        evs += ["d:Remove(0)", "D"]
+                                    cases.append("%s %s | %s | %s :: %s" % (bat, vec(src), s0, s1, " ; ".join(evs)))
+    return cases
+
+
+def hand_random(rng, n):
+    cases = []
+    for _ in range(n):
+        bat = rng.choice("ub")
+        s0 = rng.choice(HAND_STAGE0).replace(":2", ":%d" % rng.randrange(5))
+        s1 = rng.choice(HAND_STAGE1 + ["filter_map:-:85", "skip:static:1", "head:dyninit:2", "tail:dynamic:-"])
+        n0 = rng.randrange(6)
+        length = n0
+        src = [rng.randrange(40) for _ in range(n0)]
+        dyn0 = s0.split(":")[1] != "static"
+        dyn1 = s1.split(":")[1] in ("dyninit", "dynamic")
+
+        def one_diff():
+            nonlocal length
+            for _ in range(30):
+                d = rand_diff(rng, length, 40, valid_bias=1.0, maxapp=3)
+                if ok_in(d, length):
+                    length = len_after(d, length)
+                    return d
+            length += 1
+            return "PushBack(1)"
+
+        def block(k, after):
+            evs = []
+            for _ in range(k):
+                r = rng.random()
+                if r < 0.4:
+                    evs.append("d:" + one_diff())
+                elif r < 0.55:
+                    evs.append("b:" + "|".join(one_diff() for _ in range(rng.randrange(2, 4))))
+                elif r < 0.7 and dyn0:
+                    evs.append("l0:%d" % rng.randrange(7))
+                elif r < 0.8 and dyn1 and after:
+                    evs.append("l1:%d" % rng.randrange(7))
+                elif r < 0.9 and not after:
+                    evs.append("p")
+                else:
+                    evs.append("D")
+            return evs
+        evs = block(rng.randrange(0, 8), False) + ["H"] + block(rng.randrange(1, 7), True)
+        if rng.random() < 0.2:
+            evs.append("es")
+        evs.append("D")
+        cases.append("%s %s | %s | %s :: %s" % (bat, vec(src), s0, s1, " ; ".join(evs)))
+    return cases
+
+
 # ---------------------------------------------------------------- forced thread schedules (mode conc)
 def conc_all_schedules(setup, ops, length):
     n = len(ops)
